@@ -573,8 +573,10 @@ type LoopGhost struct {
 
 type CallAssert struct {
 	Callee  string
-	K       int
+	K       int    // ordinal among the calls of Callee (among those on matching lines if On != "")
+	On      string // if non-empty: only calls whose source line contains this text; K == 0 means all of them
 	Clauses []*Clause // assert
+	Matched bool
 }
 
 type GhostFn struct {
@@ -1018,10 +1020,28 @@ func readContractFile(path, pkgPath string) (*ContractFile, error) {
 				cur.ReturnAsserts[k] = append(cur.ReturnAsserts[k], c)
 				continue
 			}
+			on := ""
+			if len(f) == 4 && f[0] == "call" && f[2] == "on" {
+				// at call <callee> on "text of the source line" assert [label] expr
+				q, qerr := strconv.QuotedPrefix(strings.TrimSpace(f[3]))
+				if qerr != nil {
+					return nil, fail(rl.line, "at call <callee> on \"text\" assert <expr>: bad quoted text")
+				}
+				on, _ = strconv.Unquote(q)
+				after := strings.TrimSpace(strings.TrimPrefix(strings.TrimSpace(f[3]), q))
+				g := splitWords(after, 2)
+				if len(g) != 2 || g[0] != "assert" {
+					return nil, fail(rl.line, "at call <callee> on \"text\" assert <expr>")
+				}
+				f = []string{"call", f[1], "assert", g[1]}
+			}
 			if len(f) < 4 || f[0] != "call" || f[2] != "assert" {
-				return nil, fail(rl.line, "at call <callee>#k assert <expr> | at return #k assert <expr>")
+				return nil, fail(rl.line, "at call <callee>#k assert <expr> | at call <callee> on \"text\" assert <expr> | at return #k assert <expr>")
 			}
 			callee, k := f[1], 1
+			if on != "" {
+				k = 0
+			}
 			if i := strings.LastIndex(callee, "#"); i >= 0 {
 				k, err = strconv.Atoi(callee[i+1:])
 				if err != nil {
@@ -1036,12 +1056,12 @@ func readContractFile(path, pkgPath string) (*ContractFile, error) {
 			}
 			var ca *CallAssert
 			for _, x := range cur.CallAsserts {
-				if x.Callee == callee && x.K == k {
+				if x.Callee == callee && x.K == k && x.On == on {
 					ca = x
 				}
 			}
 			if ca == nil {
-				ca = &CallAssert{Callee: callee, K: k}
+				ca = &CallAssert{Callee: callee, K: k, On: on}
 				cur.CallAsserts = append(cur.CallAsserts, ca)
 			}
 			ca.Clauses = append(ca.Clauses, c)
